@@ -1,4 +1,5 @@
 import CwPlus.Lemmas.Ics20
+import CwPlus.Lemmas.Ics20Migrate
 /-!
 # C12 — cw20-ics20: channel balance tracks vouchers exactly; error acks change nothing
 
@@ -469,6 +470,122 @@ theorem migrate_v1_config {s s' : State} {gas : Option Nat} {hold : Denom → Op
   split <;> exact e3
 
 
+/-! ## The upgrade path: migrating from the pre-0.13.1 rules while tokens are still outstanding -/
+
+/-- **C12, migrate_books_inflight**: a successful `migrate` from a stored version ≤ 0.13.0 (v1 → v2 →
+current or v2 → current) of a one-channel contract (distinct storage keys): for every denomination with
+an entry on that channel, the real holdings `bal` existed and were at least the booked outstanding
+balance, and afterwards `outstanding = bal` (= the real holdings, which `migrate` does not move) and
+`total_sent` grew by exactly the same difference `bal − outstanding_before` — the tokens in flight
+under the old rules (escrowed, not yet acknowledged) are booked as if they had been added when sent. -/
+theorem migrate_books_inflight {w w' : World} {blk : Block} {g : Option Nat} {o : Outcome} {ch : String}
+    (hnd : AMap.NodupKeys w.st.chan) (hv : Version.le w.st.version MIGRATE_VERSION_3 = true)
+    (hch : w.st.channels = [ch]) (h : w.exec blk (.migrate g) = .ok (w', o))
+    {d : Denom} {cs : ChanState} (hg : w.st.chan.get? (ch, d) = some cs) :
+    ∃ bal, w.holdings d = some bal ∧ w'.holdings d = some bal ∧ cs.outstanding ≤ bal ∧
+      w'.st.chan.get? (ch, d) = some ⟨bal, cs.totalSent + (bal - cs.outstanding)⟩ ∧
+      outstanding w'.st ch d = bal ∧
+      totAt w'.st.chan (ch, d) = totAt w.st.chan (ch, d) + (bal - outstanding w.st ch d) ∧
+      outstanding w'.st ch d = outstanding w.st ch d + (bal - outstanding w.st ch d) := by
+  obtain ⟨hm, e2, e3, e4, e5, _⟩ := exec_migrate_frame h
+  obtain ⟨r1, _⟩ := migrate_legacy_entry hnd hv hch hm
+  obtain ⟨bal, hb, hle, hget⟩ := r1 d cs hg
+  refine ⟨bal, hb, by rw [holdings_eq_of_frame e2 e3 e4 e5 d]; exact hb, hle, hget, ?_, ?_, ?_⟩
+  · simp [outstanding, hget]
+  · simp [totAt, outstanding, hget, hg]
+  · simp [outstanding, hget, hg]; omega
+
+/-- The other keys: entries of a channel other than the migrated one (there are none in a well-formed
+state) and absent keys are not touched by the migration. -/
+theorem migrate_other_keys {w w' : World} {blk : Block} {g : Option Nat} {o : Outcome} {ch : String}
+    (hnd : AMap.NodupKeys w.st.chan) (hv : Version.le w.st.version MIGRATE_VERSION_3 = true)
+    (hch : w.st.channels = [ch]) (h : w.exec blk (.migrate g) = .ok (w', o)) (k : Key)
+    (hk : k ∉ AMap.keys w.st.chan ∨ k.1 ≠ ch) : w'.st.chan.get? k = w.st.chan.get? k :=
+  (migrate_legacy_entry hnd hv hch (exec_migrate_frame h).1).2 k hk
+
+/-- **C12, redeem_after_migrate_ok**: after such a migration every token the contract holds for the
+channel is redeemable / refundable as far as the books are concerned: for any amount up to the real
+holdings `bal` of a denomination of the channel, the `reduce_channel_balance` step (of an incoming
+redemption, an error acknowledgement or a timeout) cannot fail. -/
+theorem redeem_after_migrate_ok {w w' : World} {blk : Block} {g : Option Nat} {o : Outcome} {ch : String}
+    (hnd : AMap.NodupKeys w.st.chan) (hv : Version.le w.st.version MIGRATE_VERSION_3 = true)
+    (hch : w.st.channels = [ch]) (h : w.exec blk (.migrate g) = .ok (w', o))
+    {d : Denom} {cs : ChanState} (hg : w.st.chan.get? (ch, d) = some cs)
+    {bal amt : Nat} (hb : w'.holdings d = some bal) (hle : amt ≤ bal) :
+    ∃ m, reduceBalance w'.st.chan ch d amt = .ok m ∧ outAt m (ch, d) = bal - amt := by
+  obtain ⟨bal', _, hb', _, hget, _⟩ := migrate_books_inflight hnd hv hch h hg
+  rw [hb] at hb'; cases hb'
+  refine ⟨_, reduceBalance_ok_of_le hget hle, ?_⟩
+  simp [outAt]
+
+/-- **C12, receive_after_migrate_ok**: a later honest redemption — an incoming packet on the migrated
+channel whose voucher denomination carries the packet's source port/channel, for an in-flight amount
+up to the holdings, of a payable token — is accepted by `do_ibc_packet_receive` (not refused for
+insufficient channel balance): it produces the payout sub-message for the full amount. -/
+theorem receive_after_migrate_ok {w w' : World} {blk : Block} {g : Option Nat} {o : Outcome}
+    (hnd : AMap.NodupKeys w.st.chan) (hv : Version.le w.st.version MIGRATE_VERSION_3 = true)
+    {p : PacketIn} (hch : w.st.channels = [p.destChan]) (h : w.exec blk (.migrate g) = .ok (w', o))
+    {d : Denom} {cs : ChanState} (hg : w.st.chan.get? (p.destChan, d) = some cs)
+    {bal amt : Nat} (hb : w'.holdings d = some bal) (hle : amt ≤ bal)
+    (hamt : p.amount = some amt) (hvch : p.voucher = some (p.srcPort, p.srcChan, d))
+    {tv : Bool} {gas : Option Nat} (hgas : checkGasLimit w'.st d tv = .ok gas) :
+    ∃ s1, doReceive w'.st p tv = .ok (s1, ⟨p.receiver, amt, d, gas, RECEIVE_ID⟩) ∧
+      outstanding s1 p.destChan d = bal - amt := by
+  obtain ⟨bal', _, hb', _, hget, _⟩ := migrate_books_inflight hnd hv hch h hg
+  rw [hb] at hb'; cases hb'
+  refine ⟨_, doReceive_ok_of_entry hget hamt hvch hle hgas, ?_⟩
+  simp [outstanding]
+
+/-- **C12, refund_after_migrate_ok**: likewise a later error acknowledgement or timeout of a transfer
+that was in flight during the migration (amount up to the holdings, payable token) is accepted by
+`on_packet_failure`: the refund sub-message for the full amount is produced. -/
+theorem refund_after_migrate_ok {w w' : World} {blk : Block} {g : Option Nat} {o : Outcome} {ch : String}
+    (hnd : AMap.NodupKeys w.st.chan) (hv : Version.le w.st.version MIGRATE_VERSION_3 = true)
+    (hch : w.st.channels = [ch]) (h : w.exec blk (.migrate g) = .ok (w', o))
+    {pk : Packet} {cs : ChanState} (hg : w.st.chan.get? (ch, pk.denom) = some cs)
+    {bal : Nat} (hb : w'.holdings pk.denom = some bal) (hle : pk.amount ≤ bal)
+    {tv : Bool} {gas : Option Nat} (hgas : checkGasLimit w'.st pk.denom tv = .ok gas) :
+    ∃ s1, onPacketFailure w'.st ch (some pk) tv = .ok (s1, ⟨pk.sender, pk.amount, pk.denom, gas, ACK_FAILURE_ID⟩) ∧
+      outstanding s1 ch pk.denom = bal - pk.amount := by
+  obtain ⟨bal', _, hb', _, hget, _⟩ := migrate_books_inflight hnd hv hch h hg
+  rw [hb] at hb'; cases hb'
+  refine ⟨_, onPacketFailure_ok_of_entry hget hle hgas, ?_⟩
+  simp [outstanding]
+
+/-! ## Error acknowledgements are unobservable -/
+
+/-- `REPLY_ARGS` is not observable: no query reads it. -/
+theorem replyArgs_not_observable (s : State) (r : Option ReplyArgs) :
+    (∀ id, queryChannel { s with replyArgs := r } id = queryChannel s id) ∧
+    queryConfig { s with replyArgs := r } = queryConfig s ∧
+    queryAdmin { s with replyArgs := r } = queryAdmin s ∧
+    (∀ c, queryAllowed { s with replyArgs := r } c = queryAllowed s c) ∧
+    (∀ a l, queryListAllowed { s with replyArgs := r } a l = queryListAllowed s a l) ∧
+    ({ s with replyArgs := r } : State).channels = s.channels :=
+  ⟨fun _ => rfl, rfl, rfl, fun _ => rfl, fun _ _ => rfl, rfl⟩
+
+/-- **C12, error_ack_queries_unchanged**: whenever the final acknowledgement of an incoming packet is an
+error, everything observable is exactly as before the packet: the result of every query of the
+contract (`Channel{id}` = balances and total_sent per denomination, `ListChannels`, `Config`, `Admin`,
+`Allowed`, `ListAllowed` for every argument), the contract's real holdings of every denomination and
+every bank and cw20 balance of every account; and no payout went out.  (The only storage item that may
+differ, `REPLY_ARGS`, is read by no query.) -/
+theorem error_ack_queries_unchanged {w w' : World} {blk : Block} {p : PacketIn} {rv tv f : Bool} {o : Outcome}
+    (h : w.exec blk (.recv p rv tv f) = .ok (w', o)) (ha : o.ack = some .error) :
+    (∀ id, queryChannel w'.st id = queryChannel w.st id) ∧
+    w'.st.channels = w.st.channels ∧
+    queryConfig w'.st = queryConfig w.st ∧
+    queryAdmin w'.st = queryAdmin w.st ∧
+    (∀ c, queryAllowed w'.st c = queryAllowed w.st c) ∧
+    (∀ a l, queryListAllowed w'.st a l = queryListAllowed w.st a l) ∧
+    (∀ d, w'.holdings d = w.holdings d) ∧
+    (∀ a d, w'.bankBal a d = w.bankBal a d) ∧
+    (∀ t a, w'.tokBal t a = w.tokBal t a) := by
+  have e := error_ack_state_unchanged h ha
+  generalize w'.st.replyArgs = r at e
+  subst e
+  exact ⟨fun _ => rfl, rfl, rfl, rfl, fun _ => rfl, fun _ _ => rfl, fun d => by cases d <;> rfl, fun _ _ => rfl, fun _ _ => rfl⟩
+
 /-! ## Non-vacuity: concrete histories -/
 
 def w0 : World :=
@@ -500,5 +617,46 @@ example : (runG (w0, Ghost.init w0) hist).1.tokBal "T1" "alice" = 75 := by decid
 /-- the emitted packet of the first transfer -/
 example : ((w0.exec b0 (.sendCw20 "alice" "T1" 40 (some tm))).toOption.map (·.2.sent)) =
     some [⟨"channel-0", ⟨40, .cw20 "T1", "remote-bob", "alice", some "memo"⟩, 1000 + 3600 * 1000000000⟩] := by decide
+
+
+/-! ## Non-vacuity: the upgrade path and unobservable error acknowledgements -/
+
+/-- A contract stored by release 0.11.1 (pre-allow-list layout: `gov_contract` inside the config, no `ADMIN`
+item, no allow list): one channel; it booked 40 uatom / 10 T1 (acknowledged transfers) and holds 100 uatom /
+25 T1 — 60 uatom and 15 T1 are in flight. -/
+def wL : World :=
+  { st := { config := ⟨3600, none⟩, v1gov := some "gov", admin := none, allow := [], channels := ["channel-0"],
+            chan := [(("channel-0", .native "uatom"), ⟨40, 70⟩), (("channel-0", .cw20 "T1"), ⟨10, 10⟩)],
+            versionName := CONTRACT_NAME, version := ⟨0, 11, 1, none⟩ },
+    self := "ics20", tokens := ["T1"], faulty := [], bank := [(("ics20", "uatom"), 100)],
+    tok := [(("T1", "ics20"), 25)] }
+
+/-- the hypotheses of `migrate_books_inflight` / `redeem_after_migrate_ok` hold on `wL` -/
+example : AMap.NodupKeys wL.st.chan ∧ Version.le wL.st.version MIGRATE_VERSION_3 = true ∧
+    wL.st.channels = ["channel-0"] ∧ (wL.exec b0 (.migrate (some 5000))).isOk = true ∧
+    wL.st.chan.get? ("channel-0", .cw20 "T1") = some ⟨10, 10⟩ := by
+  refine ⟨by unfold AMap.NodupKeys; decide, by decide, by decide, by decide, by decide⟩
+
+/-- after the migration: outstanding = holdings, total_sent grew by the same 60 / 15 -/
+example : (wL.step b0 (.migrate (some 5000))).st.chan =
+    [(("channel-0", .native "uatom"), ⟨100, 130⟩), (("channel-0", .cw20 "T1"), ⟨25, 25⟩)] := by decide
+
+/-- migrate, then the in-flight 15 T1 fail remotely and are refunded, and the other 10 T1 plus all 100 uatom
+are redeemed by incoming packets: every step succeeds, the books end at zero (T1 is payable through the
+default gas limit set by the migration). -/
+def histL : List (Block × Op) :=
+  [(b0, .migrate (some 5000)),
+   (b0, .timeout "channel-0" (some ⟨15, .cw20 "T1", "remote-bob", "alice", none⟩) true true false),
+   (b0, .recv (pkt (.cw20 "T1") 10) true true false),
+   (b0, .recv (pkt (.native "uatom") 100) true true false)]
+
+example : (run wL histL).st.chan = [(("channel-0", .native "uatom"), ⟨0, 130⟩), (("channel-0", .cw20 "T1"), ⟨0, 25⟩)] ∧
+    (run wL histL).tokBal "T1" "alice" = 25 ∧ (run wL histL).bankBal "alice" "uatom" = 100 := by decide
+
+/-- an error acknowledgement that *does* change storage (`REPLY_ARGS` is written, the payout to an invalid
+receiver fails, `reply` restores the balance): ack = error, and the books are the same -/
+example : ((run w0 (hist.take 2)).exec b0 (.recv (pkt (.cw20 "T1") 10) false true false)).toOption.map
+      (fun r => (r.2.ack, r.1.st.replyArgs, r.1.st.chan == (run w0 (hist.take 2)).st.chan)) =
+    some (some .error, some ⟨"channel-0", .cw20 "T1", 10⟩, true) := by decide
 
 end CwPlus.Props.C12
